@@ -414,8 +414,7 @@ func (s *c27st) build(w []string) (string, string) {
 			}
 		}
 	}
-	line := fmt.Sprintf("ok fee=%d ins=%s outs=%s", tpl.Fee, strJoinOr(ins, "+"), strJoinOr(outs, ";"))
-	// ---- validity of the signed transaction when the request balances
+	// ---- sign, size as FinalizeTx sets it, validate; class of the verdict goes into the line
 	balanced := true
 	for ai := range s.env.assets {
 		if ai == 0 {
@@ -426,19 +425,51 @@ func (s *c27st) build(w []string) (string, string) {
 			balanced = false
 		}
 	}
-	verdict := "unbalanced-request"
-	if balanced {
-		for i := 0; i < 3 && !txbuilder.SignProgress(tpl); i++ {
-			if err := txbuilder.Sign(ctx, tpl, "", s.sign); err != nil {
-				s.fail("txbuilder.Sign fails", err.Error())
-				break
+	for i := 0; i < 3 && !txbuilder.SignProgress(tpl); i++ {
+		if err := txbuilder.Sign(ctx, tpl, "", s.sign); err != nil {
+			s.fail("txbuilder.Sign fails", err.Error())
+			break
+		}
+	}
+	data, _ := tx.TxData.MarshalText()
+	tx.TxData.SerializedSize = uint64(len(data) / 2)
+	tx.Tx.SerializedSize = uint64(len(data) / 2)
+	blk := &bc.Block{BlockHeader: &bc.BlockHeader{Version: 1, Height: s.height + 1, Timestamp: 1}}
+	_, verr := validation.ValidateTx(tx.Tx, blk, func(prog []byte) ([]byte, error) { return nil, nil })
+	ample := inSum[0] >= outSum[0]+20000000
+	mux := ""
+	switch {
+	case verr == nil && ample:
+		mux = "ok"
+	case verr == nil:
+		mux = "lowfee"
+	default:
+		switch berrors.Root(verr) {
+		case validation.ErrInputDoubleSend:
+			mux = "doublespend"
+		case validation.ErrOverflow:
+			mux = "overflow"
+		case validation.ErrNoSource:
+			mux = "nosource"
+		case validation.ErrUnbalanced:
+			mux = "unbalanced"
+		case validation.ErrGasCalculate:
+			if inSum[0] < outSum[0] {
+				mux = "gas"
+			} else {
+				mux = "lowfee"
+			}
+		default:
+			if !ample && inSum[0] >= outSum[0] {
+				mux = "lowfee" // the VM ran out of gas: covered by the explicit fee side condition
+			} else {
+				mux = "other(" + verr.Error() + ")"
 			}
 		}
-		data, _ := tx.TxData.MarshalText()
-		tx.TxData.SerializedSize = uint64(len(data) / 2)
-		tx.Tx.SerializedSize = uint64(len(data) / 2)
-		blk := &bc.Block{BlockHeader: &bc.BlockHeader{Version: 1, Height: s.height + 1, Timestamp: 1}}
-		_, verr := validation.ValidateTx(tx.Tx, blk, func(prog []byte) ([]byte, error) { return nil, nil })
+	}
+	line := fmt.Sprintf("ok fee=%d ins=%s outs=%s mux=%s", tpl.Fee, strJoinOr(ins, "+"), strJoinOr(outs, ";"), mux)
+	verdict := "unbalanced-request/" + mux
+	if balanced {
 		switch {
 		case !txbuilder.SignProgress(tpl):
 			s.fail("signing does not complete although every key is available", line)
@@ -624,18 +655,23 @@ func c27gen(c *Ctx, s *c27st) {
 		}
 		spend[0] += 20000000 + uint64(r.Intn(3))*10000000 // fee
 		var stoks []string
+		perturb := r.Intn(9) // 0,1: non-BTM off by a few; 2: BTM fee just too low; 3: BTM spend halved; 4: non-BTM spend dropped
 		for _, as := range assets {
 			total := spend[as]
 			if total == 0 {
 				continue
 			}
-			switch r.Intn(12) {
-			case 0:
-				total += uint64(1 + r.Intn(5)) // unbalanced request
-			case 1:
-				if total > 3 {
-					total -= 1 + uint64(r.Intn(3))
-				}
+			switch {
+			case perturb == 0 && as != 0:
+				total += uint64(1 + r.Intn(5))
+			case perturb == 1 && as != 0 && total > 3:
+				total -= 1 + uint64(r.Intn(3))
+			case perturb == 2 && as == 0:
+				total -= 1 + uint64(r.Intn(3))
+			case perturb == 3 && as == 0 && len(assets) == 1:
+				total /= 2
+			case perturb == 4 && as != 0:
+				continue
 			}
 			acct := 1 + r.Intn(2)
 			unc := r.Intn(2)
